@@ -126,11 +126,14 @@ class ValueSpecBase(ValueSpec):
     # Reset frozen after setting the default value.
     self._frozen = frozen
 
-  @functools.cached_property
+  @property
   def skip_user_transform(self) -> 'ValueSpec':
     """Returns a value spec of this without transform."""
     if self._transform is None:
       return self
+    # NOTE: not cached: a spec is changed in place after its construction
+    # (`extend`, `set_default`, `freeze`, `noneable`), and a twin taken before
+    # would keep the old schema / bounds.
     spec_without_transform = copy.copy(self)
     spec_without_transform._transform = None  # pylint: disable=protected-access
     return spec_without_transform
